@@ -173,7 +173,25 @@ class Lowerer:
             s = s[:m.start()] + '((' + ty + ')(' + s[k + 1:e] + '))' + s[e + 1:]
             self.fire('cast')
 
+    def tsan_order(self, s):
+        """TSAN_MEMORY_ORDER(tsan_order, normal_order) -> normal_order: the production (non-TSan) build is what is verified"""
+        while True:
+            m = re.search(r'\bTSAN_MEMORY_ORDER\s*\(', s)
+            if not m: return s
+            i = m.end() - 1; j = match_brace(s, i, '(', ')')
+            args = []; cur = ''; d = 0
+            for c in s[i + 1:j]:
+                if c in '([': d += 1
+                if c in ')]': d -= 1
+                if c == ',' and d == 0: args.append(cur); cur = ''
+                else: cur += c
+            args.append(cur)
+            if len(args) != 2: raise ExtractError('TSAN_MEMORY_ORDER with %d args' % len(args))
+            s = s[:m.start()] + args[1].strip() + s[j + 1:]
+            self.fire('tsan_order')
+
     def simple(self, s):
+        s = self.tsan_order(s)
         n0 = len(re.findall(r'std::memory_order_\w+', s)); self.fire('memory_order', n0) if n0 else None
         s = re.sub(r'std::memory_order_(\w+)', r'mo_\1', s)
         s = re.sub(r'\bif\s+constexpr\b', 'if', s)
